@@ -4,6 +4,7 @@ import Ahbicht.Model.Parse
 import Ahbicht.Model.Ahb
 import Ahbicht.Model.Fc
 import Ahbicht.Model.AhbEval
+import Ahbicht.Model.Resolve
 /-!
 # line-protocol driver: one JSON request per line on stdin, one JSON answer per line on stdout
 -/
@@ -135,6 +136,19 @@ def handle (j : Json) : Except String Json := do
     | .ok r => pure (Json.mkObj [("indicator", r.indicator), ("fulfilled", optBool r.rc.fulfilled), ("conditional", optBool r.rc.conditional),
         ("fce", optStr r.rc.fce), ("hints", optStr r.rc.hints), ("fc_ok", r.fc.ok), ("fc_msg", optStr r.fc.msg)])
     | .error e => pure (Json.mkObj [("err", errName e)])
+  | "expand" =>
+    let t ← exprOfJson (← j.getObjVal? "tree")
+    let P : List Char → Option (List Char) := fun k =>
+      match lookupObj j "packages" k with
+      | some (Json.str s) => some s.toList
+      | _ => none
+    let rp := (j.getObjValAs? Bool "resolve_packages").toOption.getD true
+    let rt := (j.getObjValAs? Bool "replace_time").toOption.getD true
+    match resolveTree P rp rt t with
+    | .ok e => pure (Json.mkObj [("tree", exprJson e), ("flat", nexprJson e.flat)])
+    | .error .valueError => pure (Json.mkObj [("err", "ValueError")])
+    | .error .notImplemented => pure (Json.mkObj [("err", "NotImplementedError")])
+    | .error .syntaxError => pure (Json.mkObj [("err", "SyntaxError")])
   | _ => throw s!"unknown op {op}"
 
 partial def loop (h : IO.FS.Stream) (out : IO.FS.Stream) : IO Unit := do
